@@ -27,10 +27,11 @@ TRUSTED = ["theories/Xcdr/AssignModel.v is a hand transcription of TypeIdentifie
            "/repo into the harness binary via #[path] against the public dust_dds::xtypes API",
            "equivalence hashes and names are opaque tokens in the model (the code only compares them for equality)"]
 ASSUMPTIONS = ["covered family: top-level structures whose members are primitives and (w)strings, not optional, with "
-               "distinct member ids < 2^28 (mutable: < 2^16, else known finding C39-member-id-u16); appendable types "
-               "in XCDR1 and XCDR2 (XCDR1 without float128: C09-float128-xcdr1-align), mutable types in XCDR2",
-               "a member that is absent from the decoded DynamicData stands for its default value",
-               "strings are shorter than 4 GiB; char8 values are ASCII (C09-char8-utf8)",
+               "distinct member ids < 2^28 (mutable: < 2^16, else known finding C39-member-id-u16); final / appendable "
+               "types in XCDR1 and XCDR2, mutable types in XCDR2 (XCDR1 mutable: see C09-stage3-mutable-union)",
+               "a member that is absent from the decoded DynamicData stands for its default value (the typed sample "
+               "built from it is a separate matter: known finding C39-typed-sample-none)",
+               "strings are shorter than 1 GiB; char8 values are one octet",
                "NOT covered: unions, optional members, collections, nested evolution (known findings 1-3), "
                "TryConstruct behaviours, string/sequence bounds at decode time, key-member type rules (TODO in the code)"]
 
@@ -43,7 +44,7 @@ SK_COQ = {"u8": "KU8", "i8": "KI8", "u16": "KU16", "i16": "KI16", "i32": "KI32",
           "u64": "KU64", "f32": "KF32", "f64": "KF64", "f128": "KF128", "c8": "KChar8", "b": "KBool"}
 RANGE = {"u8": (0, 255), "i8": (-128, 127), "u16": (0, 65535), "i16": (-32768, 32767), "u32": (0, 2**32 - 1),
          "i32": (-2**31, 2**31 - 1), "u64": (0, 2**64 - 1), "i64": (-2**63, 2**63 - 1), "f32": (0, 2**32 - 1),
-         "f64": (0, 2**64 - 1), "f128": (-2**127, 2**127 - 1), "b": (0, 1), "c8": (0, 127)}
+         "f64": (0, 2**64 - 1), "f128": (-2**127, 2**127 - 1), "b": (0, 1), "c8": (0, 255)}
 EXT_COQ = {"F": "Final", "A": "Appendable", "M": "Mutable"}
 EXT_FLAG = {"F": 1, "A": 2, "M": 4}
 BOUNDS = [0, 0, 0, 1, 5, 255, 256, 1000, 2**32 - 1]
@@ -265,7 +266,7 @@ def gen_tc(r):
 def pick_enc(r, t1, t2):
     ver = 2
     if t1[1] != "M" and t2[1] != "M" and r.random() < 0.35:
-        if not (has_prim(t1, "f128") or has_prim(t2, "f128")) and not any(m[1] & 1 for m in t1[3] + t2[3]):
+        if not any(m[1] & 1 for m in t1[3] + t2[3]):
             ver = 1
     return ver, r.choice(["le", "le", "be"])
 
